@@ -600,8 +600,8 @@ type c37Case struct {
 	Mode        string   `json:"mode"` // truncate | corrupt
 	From        int      `json:"from,omitempty"`
 	To          int      `json:"to,omitempty"`
-	Pairs       int      `json:"pairs,omitempty"`      // number of (file, offset) pairs the generator enumerated over
-	Uncovered   int      `json:"uncovered,omitempty"`  // pairs this batch cannot cover (batch too small); only on run 0
+	Pairs       int      `json:"pairs,omitempty"`     // number of (file, offset) pairs the generator enumerated over
+	Uncovered   int      `json:"uncovered,omitempty"` // pairs this batch cannot cover (batch too small); only on run 0
 	ReportTotal bool     `json:"report_total,omitempty"`
 	File        string   `json:"file,omitempty"`
 	Muts        []c37Mut `json:"muts,omitempty"`
